@@ -1,180 +1,126 @@
 ---------------------------- MODULE MC_Totality ----------------------------
-(* Design-level check of Totality.tla and generation of the configuration space of C12.                            *)
-(*                                                                                                                 *)
-(*  MC_Totality.cfg  (Mode = "laws")  the call/return automaton: every configuration of the space below, combined    *)
-(*     with the reference contents of its writer, is called; Return offers every kind of observation (error, panic,  *)
-(*     hang, neither, both, and matrices: the reference rendering of Render.tla of a reference symbol, the same one   *)
-(*     pixel / one module too small).  Invariant Laws: the contract is never contradictory (contents are not both     *)
-(*     certainly refused and certainly accepted), always satisfiable (some offered observation conforms), excludes    *)
-(*     panic / hang / neither / both, is met by the reference outcome (refusal where R applies, otherwise the         *)
-(*     reference rendering with an in-range margin) and rejects every matrix that is too small.                       *)
-(*     NaturalLaws (ASSUME) derives the module counts used in clause D from the symbol definitions of OneD.tla.      *)
-(*  Gen_Totality.cfg (Mode = "gen")   prints every configuration (writer x BarcodeFormat x size classes x hint values *)
-(*     in and out of range) as a GEN line with the outcome class the configuration alone fixes; the check combines    *)
-(*     them with content classes and replays them on the real writers.                                               *)
-EXTENDS Totality, Json
-CONSTANTS Mode, Full
-RD == INSTANCE Render
-VARIABLES pc, cs, ob
-vars == <<pc, cs, ob>>
+(* Design-level checks of Totality.tla / TotalParse.tla and generation of parser inputs for C06.                     *)
+(*                                                                                                                   *)
+(*  MC_Totality.cfg  (Mode = "laws")  one state; invariant Laws:                                                     *)
+(*     - the literal ECI set of TotalParse equals the registry of Charset.tla;                                        *)
+(*     - every composition of total inner calls with errors of the kinds the inner contracts allow is total again     *)
+(*       and of a documented kind (all inner outcome vectors are enumerated);                                        *)
+(*     - the type discipline is load-bearing: ONE untyped inner error makes the mirrored QR retry return             *)
+(*       (nil, nil) - the model knows the failure the binding looks for;                                             *)
+(*     - the ECI designator forms carry what 18004 says they carry.                                                  *)
+(*  Gen_Totality.cfg (Mode = "gen")   the state space is the tree of all symbol sequences of a family up to its       *)
+(*     depth; every node is a parser input.  Invariant ParserTotal: the reference automaton assigns every node a     *)
+(*     class (it is itself total and deterministic).  Action Emit prints the node as an input event of the driver    *)
+(*     (GEN line) with the class and the deciding branch; the check replays all of them on the real parsers.          *)
+(*     Families (alphabets chosen to reach every branch of the automata):                                            *)
+(*        qr      bytes over 18 values: every mode nibble, ECI first bytes of the three forms, counts 0 / small /    *)
+(*                too large, x three version classes                                                                 *)
+(*        dm      codewords over every ASCII-level codeword class                                                    *)
+(*        dm.c40 / dm.text / dm.x12 / dm.edifact / dm.b256   a latch followed by codewords that reach the shift       *)
+(*                sets, the pair value 0 / 64000, the unlatch in every position, lengths 0 / 1 / 249 / 250 / 255      *)
+(*                (un-randomised for their position)                                                                 *)
+(*        az.bits all bit strings; az.codes 5-bit codes incl. all latches / shifts / B/S; az.flg<n> FLG(n) + digits  *)
+EXTENDS Totality, TotalParse, Json
+CONSTANTS Mode, Depth          \* Depth: 0 quick, 1 thorough
+VARIABLES fam, ver, s, emitted
+vars == <<fam, ver, s, emitted>>
 
-(* ------------------------------------------------------------------ hint values, in and out of range *)
-HV(k, t, i, sn, s, a, b) == [k |-> k, t |-> t, i |-> i, sn |-> sn, s |-> s, a |-> a, b |-> b]
-HInt(k, i) == HV(k, 0, i, "", <<>>, 0, 0)
-HStr(k, sn, s) == HV(k, 1, 0, sn, s, 0, 0)       \* s is given where the spec parses it (numbers); the check fills the others from sn
-HBool(k, i) == HV(k, 2, i, "", <<>>, 0, 0)
-HDim(k, a, b) == HV(k, 5, 0, "", <<>>, a, b)
-HRel(k, i, a) == HV(k, 6, i, "", <<>>, a, 0)      \* int i + a * (module width of the symbol), resolved by the driver
-HintValues(k) ==
-  CASE k = "ERROR_CORRECTION" -> {HV(k, 3, i, "", <<>>, 0, 0) : i \in {0, 1, 2, 3, 7, -1}}
-                                   \cup {HStr(k, "L", <<76>>), HStr(k, "H", <<72>>), HStr(k, "X", <<88>>), HStr(k, "", <<>>)}
-    [] k = "CHARACTER_SET" -> {HStr(k, n, <<>>) : n \in {"UTF-8", "ISO-8859-1", "Shift_JIS", "nope", ""}}
-    [] k = "MARGIN" -> {HInt(k, i) : i \in {-200, -95, -67, -51, -21, -5, -1, 0, 1, 4, 100}}
-                         \cup {HStr(k, "3", <<51>>), HStr(k, "-3", <<45, 51>>), HStr(k, "x", <<120>>), HStr(k, "", <<>>)}
-                         \cup {HRel(k, i, -1) : i \in {-1, 0, 1}}
-    [] k = "QR_VERSION" -> {HInt(k, i) : i \in {-1, 0, 1, 2, 40, 41}} \cup {HStr(k, "7", <<55>>), HStr(k, "x", <<120>>)}
-    [] k = "QR_MASK_PATTERN" -> {HInt(k, i) : i \in {-1, 0, 7, 8}} \cup {HStr(k, "3", <<51>>), HStr(k, "x", <<120>>)}
-    [] k = "GS1_FORMAT" -> {HBool(k, 0), HBool(k, 1), HStr(k, "true", <<>>), HStr(k, "x", <<>>)}
-    [] k = "DATA_MATRIX_SHAPE" -> {HV(k, 4, i, "", <<>>, 0, 0) : i \in {-1, 0, 1, 2, 3}}
-    [] k = "MIN_SIZE" -> {HDim(k, 0, 0), HDim(k, 10, 10), HDim(k, 26, 12), HDim(k, 144, 144), HDim(k, 200, 200)}
-    [] k = "MAX_SIZE" -> {HDim(k, 0, 0), HDim(k, 10, 10), HDim(k, 18, 8), HDim(k, 26, 26), HDim(k, 144, 144)}
-    [] k = "FORCE_CODE_SET" -> {HStr(k, n, <<>>) : n \in {"A", "B", "C", "D", ""}}
-AllHintValues == UNION {HintValues(k) : k \in HintKeys}
-\* combinations of the hints one writer reads
-Pairs(k1, k2) == {<<x, y>> : x \in HintValues(k1), y \in HintValues(k2)}
-Triples(k1, k2, k3) == {<<x, y, z>> : x \in HintValues(k1), y \in HintValues(k2), z \in HintValues(k3)}
-Combos(wr) ==
-  CASE wr = "QR" -> Pairs("ERROR_CORRECTION", "QR_VERSION") \cup Pairs("MARGIN", "QR_VERSION") \cup Pairs("CHARACTER_SET", "GS1_FORMAT")
-                    \cup Pairs("QR_MASK_PATTERN", "ERROR_CORRECTION")
-    [] wr = "DM" -> Triples("DATA_MATRIX_SHAPE", "MIN_SIZE", "MAX_SIZE") \cup Pairs("MIN_SIZE", "MAX_SIZE")
-                    \cup Pairs("DATA_MATRIX_SHAPE", "MAX_SIZE") \cup Pairs("DATA_MATRIX_SHAPE", "MIN_SIZE")
-    [] wr = "C128" -> Pairs("MARGIN", "FORCE_CODE_SET")
-    [] OTHER -> Pairs("MARGIN", "ERROR_CORRECTION")
+(* ------------------------------------------------------------------ families *)
+\* in a Data Matrix family a symbol 1000..1255 stands for "the codeword that un-randomises to (symbol - 1000) here",
+\* a symbol >= 100000 for the codeword pair (symbol - 100000) \div 256, (symbol - 100000) % 256
+Fam(name, kind, prefix, alphabet, width, maxlen) ==
+  [name |-> name, kind |-> kind, prefix |-> prefix, alphabet |-> alphabet, width |-> width, maxlen |-> maxlen]
+QRAlphabet == {0, 16, 17, 32, 33, 64, 65, 72, 112, 113, 127, 128, 192, 209, 255, 53, 80, 144}
+DMAlphabet == {0, 1, 66, 128, 129, 130, 229, 230, 231, 232, 233, 235, 236, 238, 239, 240, 241, 242, 254, 255}
+\* C40 / Text / X12 codeword pairs (symbol 100000 + 256*c1 + c2): value 0; 1; (1,5,0) shift 2 + character; (1,28,0) shift 2 +
+\* reserved value; (0,35,4) shift 1 + value beyond the set; (2,35,4) shift 3 + value beyond the set; (4,4,0) ends with a
+\* pending shift 1; 64000 (C1 = 40); 65535; and single codewords: unlatch, an ASCII character, pad
+DMC40Alphabet == {100000, 100001, 101801, 102721, 101405, 104605, 106561, 164001, 165535, 254, 66, 129}
+DMEdfAlphabet == {0, 1, 7, 31, 124, 192, 240, 129, 254, 66}
+DMB256Alphabet == {1000, 1001, 1002, 1249, 1250, 1255, 0, 44, 129, 254}
+AZCodeAlphabet == {0, 1, 2, 14, 15, 27, 28, 29, 30, 31}
+AZDigitAlphabet == {1, 2, 4, 5, 8, 11, 12}
+D(q, t) == IF Depth = 0 THEN q ELSE t
+Families ==
+  {Fam("qr", "qr", <<>>, QRAlphabet, 8, D(3, 4)),
+   Fam("dm", "dm", <<>>, DMAlphabet, 8, D(3, 4)),
+   Fam("dm.c40", "dm", <<230>>, DMC40Alphabet, 8, D(3, 4)),
+   Fam("dm.text", "dm", <<239>>, DMC40Alphabet, 8, D(3, 4)),
+   Fam("dm.x12", "dm", <<238>>, DMC40Alphabet, 8, D(3, 4)),
+   Fam("dm.edifact", "dm", <<240>>, DMEdfAlphabet, 8, D(4, 5)),
+   Fam("dm.b256", "dm", <<231>>, DMB256Alphabet, 8, D(3, 4)),
+   Fam("dm.b256+1", "dm", <<66, 231>>, DMB256Alphabet, 8, D(3, 4)),
+   Fam("az.bits", "az", <<>>, {0, 1}, 1, D(12, 15)),
+   Fam("az.codes", "az", <<>>, AZCodeAlphabet, 5, D(4, 5)),
+   Fam("az.mixed", "az", <<1,1,1,0,1>>, AZCodeAlphabet, 5, D(3, 4))}            \* M/L first: Mixed table
+  \cup {Fam("az.flg", "az", <<0,0,0,0,0, 0,0,0,0,0>> \o BitsOf(k, 3), AZDigitAlphabet, 4, D(3, 4)) : k \in 0..7}
+  \cup {Fam("az.punct.flg", "az", <<1,1,1,0,1, 1,1,1,1,0, 0,0,0,0,0>> \o BitsOf(k, 3), AZDigitAlphabet, 4, D(2, 3)) : k \in {0, 1, 2, 6, 7}}
+Versions(f) == IF f.kind = "qr" THEN {1, 10, 27} ELSE {0}
 
-(* ------------------------------------------------------------------ size classes *)
-\* kind 0: literal, 1: symbol size + v, 2: symbol size * v
-SZ(k, v) == [k |-> k, v |-> v]
-SizeClasses == {SZ(0, -5), SZ(0, -1), SZ(0, 0), SZ(0, 1), SZ(1, -1), SZ(1, 0), SZ(2, 10)}
-SizePairs == {<<SZ(0, 0), SZ(0, 0)>>, <<SZ(0, 1), SZ(0, 1)>>, <<SZ(1, -1), SZ(1, 0)>>, <<SZ(2, 10), SZ(2, 10)>>, <<SZ(0, -1), SZ(0, 0)>>}
-SizePairs2 == {<<SZ(0, 0), SZ(0, 0)>>, <<SZ(2, 10), SZ(2, 10)>>}
-Resolve(sz, sym) == IF sz.k = 0 THEN sz.v ELSE IF sz.k = 1 THEN sym + sz.v ELSE sym * sz.v
+(* ------------------------------------------------------------------ concrete inputs *)
+RECURSIVE DMConcrete(_,_,_)
+DMConcrete(syms, i, acc) == IF i > Len(syms) THEN acc
+                            ELSE DMConcrete(syms, i + 1,
+                                   IF syms[i] >= 100000 THEN acc \o <<(syms[i] - 100000) \div 256, (syms[i] - 100000) % 256>>
+                                   ELSE Append(acc, IF syms[i] >= 1000 THEN DMRand(syms[i] - 1000, Len(acc) + 1) ELSE syms[i]))
+Bytes(f, q) == IF f.kind = "dm" THEN DMConcrete(q, 1, f.prefix) ELSE f.prefix \o q
+RECURSIVE BitCat(_,_,_,_)
+BitCat(q, i, w, acc) == IF i > Len(q) THEN acc ELSE BitCat(q, i + 1, w, acc \o BitsOf(q[i], w))
+AzBits(f, q) == BitCat(q, 1, f.width, f.prefix)
+RECURSIVE PackLE16(_,_,_)
+PackLE16(bits, lo, hi) == IF lo > hi THEN 0 ELSE bits[lo] + (2 * PackLE16(bits, lo + 1, hi))
+Chunks16(bits) == [k \in 1..((Len(bits) + 15) \div 16) |-> PackLE16(bits, (16 * (k - 1)) + 1, IF 16 * k < Len(bits) THEN 16 * k ELSE Len(bits))]
+Class(f, v, q) == CASE f.kind = "qr" -> QRParse(Bytes(f, q), v, FALSE)
+                    [] f.kind = "dm" -> DMParse(Bytes(f, q))
+                    [] f.kind = "az" -> AZParse(AzBits(f, q))
+Case(f, v, q) ==
+  LET r == Class(f, v, q) IN
+  CASE f.kind = "qr" -> [op |-> "qrp", api |-> "qr.parser", a |-> <<v, 0>>, b |-> Bytes(f, q), h |-> <<>>, fam |-> f.name, cls |-> r.cls, why |-> r.why]
+    [] f.kind = "dm" -> [op |-> "dmp", api |-> "dm.parser", a |-> <<>>, b |-> Bytes(f, q), h |-> <<>>, fam |-> f.name, cls |-> r.cls, why |-> r.why]
+    [] f.kind = "az" -> LET bits == AzBits(f, q) IN
+                        [op |-> "azp", api |-> "az.hld", a |-> <<Len(bits)>>, b |-> Chunks16(bits), h |-> <<>>, fam |-> f.name, cls |-> r.cls, why |-> r.why]
 
-(* ------------------------------------------------------------------ configurations *)
-Cfg(wr, f, a, b, hs) == [wr |-> wr, fmt |-> f, wk |-> a.k, w0 |-> a.v, hk |-> b.k, h0 |-> b.v, hints |-> hs]
-Group(wr, g) ==
-  CASE g = 1 -> {Cfg(wr, f, a, b, <<>>) : f \in 0..16, a \in SizeClasses, b \in SizeClasses}
-    [] g = 2 -> {Cfg(wr, OwnFmtValue(wr), p[1], p[2], <<x>>) : x \in AllHintValues, p \in SizePairs}
-    [] g = 3 -> {Cfg(wr, OwnFmtValue(wr), p[1], p[2], x) : x \in Combos(wr), p \in SizePairs2}
-\* what the configuration alone fixes (relative sizes are non-negative whenever a symbol exists)
-Lit(k, v) == IF k = 0 THEN v ELSE 0
-CfgClass(x) == ConfigClass(x.wr, x.fmt, Lit(x.wk, x.w0), Lit(x.hk, x.h0), x.hints)
-GenRecord(x) == [wr |-> x.wr, fmt |-> x.fmt, wk |-> x.wk, w0 |-> x.w0, hk |-> x.hk, h0 |-> x.h0, hints |-> x.hints,
-                 cfg |-> CfgClass(x)]
-
-(* ------------------------------------------------------------------ reference contents and reference symbols *)
-CT(cp, cn) == [cp |-> cp, cn |-> cn]
-Common == {CT(<<>>, 0), CT(<<49>>, 1), CT(<<65>>, 4000), CT(<<49>>, 4000), CT(<<255, 254, 128>>, 3), CT(<<227, 129, 130>>, 3)}
-Own(wr) ==
-  CASE wr = "QR" -> {CT(<<72, 69, 76, 76, 79>>, 5), CT(<<104, 105>>, 2), CT(<<49, 50>>, 2900)}
-    [] wr = "DM" -> {CT(<<72, 69, 76, 76, 79>>, 5), CT(<<49, 50>>, 6), CT(<<49, 50>>, 3000)}
-    [] wr = "EAN13" -> {CT(<<53, 57, 48, 49, 50, 51, 52, 49, 50, 51, 52, 53>>, 12), CT(<<53, 57, 48, 49, 50, 51, 52, 49, 50, 51, 52, 53, 55>>, 13),
-                        CT(<<53, 57, 48, 49, 50, 51, 52, 49, 50, 51, 52, 53, 56>>, 13)}
-    [] wr = "EAN8" -> {CT(<<49, 50, 51, 52, 53, 54, 55>>, 7), CT(<<49, 50, 51, 52, 53, 54, 55, 48>>, 8), CT(<<49, 50, 51, 52, 53, 54, 55, 49>>, 8)}
-    [] wr = "UPCA" -> {CT(<<48, 49, 50, 51, 52, 53, 54, 55, 56, 57, 48>>, 11), CT(<<48, 49, 50, 51, 52, 53, 54, 55, 56, 57, 48, 53>>, 12)}
-    [] wr = "UPCE" -> {CT(<<48, 49, 50, 51, 52, 53, 54>>, 7), CT(<<50, 49, 50, 51, 52, 53, 54>>, 7), CT(<<48, 49, 50, 51, 52, 53, 54, 53>>, 8)}
-    [] wr = "C39" -> {CT(<<65, 66, 45, 49>>, 4), CT(<<97, 98>>, 2), CT(<<65>>, 80), CT(<<65>>, 81), CT(<<97>>, 41)}
-    [] wr = "C93" -> {CT(<<65, 66, 45, 49>>, 4), CT(<<97, 98>>, 2), CT(<<65>>, 80), CT(<<65>>, 81), CT(<<97>>, 41)}
-    [] wr = "C128" -> {CT(<<65, 66, 49, 50>>, 4), CT(<<49, 50>>, 6), CT(<<49, 50>>, 5), CT(<<97, 1>>, 2), CT(<<65>>, 80), CT(<<65>>, 81)}
-    [] wr = "ITF" -> {CT(<<49, 50>>, 4), CT(<<49, 50>>, 3), CT(<<49, 50>>, 80), CT(<<49, 50>>, 82)}
-    [] wr = "CBAR" -> {CT(<<49, 50, 51>>, 3), CT(<<65, 49, 50, 66>>, 4), CT(<<49, 58, 50>>, 3), CT(<<90>>, 1)}
-Contents(wr) == Common \cup Own(wr)
-\* a symbol the contract admits for the call (0x0: none); Data Matrix: the smallest admitted size that holds the lower bound
-RefSymbol(c) ==
-  LET wr == c.wr IN
-  CASE wr = "QR" -> (LET vh == QRVersionHint(c)  v == IF vh.kind = "int" THEN vh.v ELSE QRMinVersion(c) IN
-                     IF v = 0 THEN <<0, 0>> ELSE <<QR!Dim(v), QR!Dim(v)>>)
-    [] wr = "DM" -> (LET i == DM!Lookup(DMCodewordsLB(c), ShapeHint(c.hints), DimHint(c.hints, "MIN_SIZE"), DimHint(c.hints, "MAX_SIZE")) IN
-                     IF i = 0 THEN <<0, 0>> ELSE <<DM!SCols(DM!T7[i]), DM!SRows(DM!T7[i])>>)
-    [] wr \in {"EAN13", "UPCA"} -> <<EAN13Modules, 1>>
-    [] wr = "EAN8" -> <<EAN8Modules, 1>>
-    [] wr = "UPCE" -> <<UPCEModules, 1>>
-    [] wr = "ITF" -> <<ITFModules(c.cn), 1>>
-    [] wr = "C39" -> <<C39Modules(C39Len(c)), 1>>
-    [] wr = "C93" -> <<C93Modules(C93Len(c)), 1>>
-    [] wr = "C128" -> <<C128Modules(2 + c.cn), 1>>
-    [] wr = "CBAR" -> <<CBarModules(c.cn, 2), 1>>
-\* the call of a configuration with contents: sizes relative to the reference symbol, relative margins resolved
-CallOf(x, ct) ==
-  LET c0 == [wr |-> x.wr, fmt |-> x.fmt, cp |-> ct.cp, cn |-> ct.cn, w |-> 0, h |-> 0, hints |-> x.hints]
-      sym == IF ct.cn = 0 \/ ContentErr(c0) THEN <<0, 0>> ELSE RefSymbol(c0)
-      hs == [j \in 1..Len(x.hints) |-> IF x.hints[j].t = 6 THEN HInt(x.hints[j].k, x.hints[j].i + (x.hints[j].a * sym[1])) ELSE x.hints[j]]
-  IN [wr |-> x.wr, fmt |-> x.fmt, cp |-> ct.cp, cn |-> ct.cn, w |-> Resolve(SZ(x.wk, x.w0), sym[1]), h |-> Resolve(SZ(x.hk, x.h0), sym[2]),
-      hints |-> hs, sw |-> sym[1], sh |-> sym[2]]
-
-(* ------------------------------------------------------------------ observations offered by Return *)
-Obs(mat, err, panic, hang, sok, sw, sh, ow, oh) ==
-  [mat |-> mat, err |-> err, panic |-> panic, hang |-> hang, sok |-> sok, sw |-> sw, sh |-> sh, ow |-> ow, oh |-> oh]
-MarginOf(c) == LET m == IntHint(c.hints, "MARGIN") IN
-               IF m.kind = "int" THEN m.v ELSE IF c.wr = "QR" THEN 4 ELSE IF c.wr \in {"EAN13", "EAN8", "UPCA", "UPCE"} THEN 9 ELSE 10
-\* the reference rendering exists when the geometry of Render.tla is defined (non-negative request, positive module area)
-Renderable(c) == c.sw > 0 /\ c.w >= 0 /\ c.h >= 0 /\
-                 (ClassOf(c.wr) = "qr" => c.sw + (2 * MarginOf(c)) > 0) /\ (ClassOf(c.wr) = "1d" => c.sw + MarginOf(c) > 0)
-RefMatrix(c) == LET g == RD!Geom(ClassOf(c.wr), c.sw, c.sh, c.w, c.h, IF ClassOf(c.wr) = "dm" THEN 0 ELSE MarginOf(c))
-                IN Obs(1, 0, 0, 0, 1, c.sw, c.sh, g.ow, g.oh)
-ErrObs == Obs(0, 1, 0, 0, 0, 0, 0, 0, 0)
-BadKinds == {Obs(0, 0, 1, 0, 0, 0, 0, 0, 0), Obs(0, 0, 0, 1, 0, 0, 0, 0, 0), Obs(0, 0, 0, 0, 0, 0, 0, 0, 0), Obs(1, 1, 0, 0, 1, 21, 21, 29, 29)}
-TooSmall(c) == IF c.sw = 0 THEN {} ELSE
-  {Obs(1, 0, 0, 0, 1, c.sw, c.sh, c.sw - 1, Max2(c.sh, c.h)), Obs(1, 0, 0, 0, 1, c.sw, c.sh, Max2(c.sw, c.w), c.sh - 1),
-   Obs(1, 0, 0, 0, 0, 0, 0, Max2(c.sw, c.w), Max2(c.sh, c.h))}
-   \cup (IF ClassOf(c.wr) # "dm" /\ c.w >= 2 THEN {Obs(1, 0, 0, 0, 1, c.sw, c.sh, Max2(c.sw, c.w) - 1, Max2(Max2(c.sh, c.h), 1))} ELSE {})
-Offered(c) == {ErrObs} \cup BadKinds \cup TooSmall(c) \cup (IF Renderable(c) THEN {RefMatrix(c)} ELSE {})
-
-(* ------------------------------------------------------------------ the automaton *)
-Groups == IF Full THEN {1, 2, 3} ELSE {2, 3}
-Init == pc = "idle" /\ cs \in {<<wr, g>> : wr \in WriterSet, g \in Groups} /\ ob = ErrObs
-Call == /\ pc = "idle" /\ Mode = "laws"
-        /\ \E x \in Group(cs[1], cs[2]) : \E ct \in Contents(cs[1]) : cs' = CallOf(x, ct)
-        /\ pc' = "called" /\ ob' = ob
-Return == /\ pc = "called"
-          /\ \E o \in Offered(cs) : ob' = o
-          /\ pc' = "returned" /\ cs' = cs
-Emit == /\ pc = "idle" /\ Mode = "gen"
-        /\ \A x \in Group(cs[1], cs[2]) : PrintT(<<"GEN", ToJson(GenRecord(x))>>)
-        /\ pc' = "emitted" /\ UNCHANGED <<cs, ob>>
-Next == Call \/ Return \/ Emit
+(* ------------------------------------------------------------------ the generation tree *)
+Init == IF Mode = "laws" THEN fam = Fam("none", "none", <<>>, {}, 8, 0) /\ ver = 0 /\ s = <<>> /\ emitted = TRUE
+        ELSE /\ fam \in Families /\ ver \in Versions(fam) /\ s = <<>> /\ emitted = FALSE
+Extend == /\ ~emitted /\ Len(s) < fam.maxlen
+          /\ \E x \in fam.alphabet : s' = Append(s, x)
+          /\ UNCHANGED <<fam, ver, emitted>>
+Emit == /\ ~emitted
+        /\ PrintT(<<"GEN", ToJson(Case(fam, ver, s))>>)
+        /\ emitted' = TRUE /\ UNCHANGED <<fam, ver, s>>
+Next == Extend \/ Emit
 Spec == Init /\ [][Next]_vars
 
-(* ------------------------------------------------------------------ laws *)
-\* checked in the state after Call (all workers share the work: the initial states are few)
-Laws ==
-  pc = "called" =>
-    LET c == cs IN
-    /\ ~(c.cn > 0 /\ ContentErr(c) /\ ContentOk(c))                            \* never both certain
-    /\ \E o \in Offered(c) : Conforms(c, o)                                    \* satisfiable
-    /\ \A o \in BadKinds : ~Conforms(c, o)                                     \* T excludes panic, hang, neither, both
-    /\ \A o \in TooSmall(c) : ~Conforms(c, o)                                  \* D rejects matrices that are too small
-    /\ (Expect(c) = "err" => Conforms(c, ErrObs))                              \* the reference outcome conforms ...
-    /\ (Expect(c) = "ok" => c.sw > 0 /\ Renderable(c) /\ Conforms(c, RefMatrix(c)))
-    /\ (Expect(c) = "any" /\ HintsInRange(c.wr, c.hints) /\ Renderable(c) /\ ~ContentErr(c) /\ ConfigClass(c.wr, c.fmt, c.w, c.h, c.hints) = "open"
-          => Conforms(c, RefMatrix(c)) /\ Conforms(c, ErrObs))                  \* ... and where the class is open, both do
-\* after Return: an observation conforms iff no clause fails
-VerdictLaw == pc = "returned" => ((Verdict(cs, ob) = 0) <=> Conforms(cs, ob))
+ParserTotal == (Mode = "gen" /\ ~emitted) => LET r == Class(fam, ver, s) IN r.cls \in {"ok", "format", "any"} /\ r.why # ""
 
-(* ------------------------------------------------------------------ module counts from the symbol definitions *)
-SumSeq(s) == OD!SumSeq(s)
-NaturalLaws ==
-  /\ SumSeq(OD!EAN13Runs(<<5, 9, 0, 1, 2, 3, 4, 1, 2, 3, 4, 5, 7>>)) = EAN13Modules
-  /\ SumSeq(OD!UPCARuns(<<0, 1, 2, 3, 4, 5, 6, 7, 8, 9, 0, 5>>)) = EAN13Modules
-  /\ SumSeq(OD!EAN8Runs(<<1, 2, 3, 4, 5, 6, 7, 0>>)) = EAN8Modules
-  /\ SumSeq(OD!UPCERuns(<<0, 1, 2, 3, 4, 5, 6, 5>>)) = UPCEModules
-  /\ \A n \in 0..6 : /\ SumSeq(OD!C39Runs([i \in 1..n |-> (7 * i) % 43])) = C39Modules(n)
-                     /\ SumSeq(OD!C93Runs([i \in 1..n + 2 |-> (5 * i) % 47])) = C93Modules(n)
-                     /\ SumSeq(OD!ITFRuns([i \in 1..2 * n |-> (3 * i) % 10], 3)) = ITFModules(2 * n)
-                     /\ SumSeq(OD!C128Runs([i \in 1..n + 2 |-> (11 * i) % 103])) = C128Modules(n + 2)
-  /\ \A v \in 0..19 : SumSeq(OD!CBar[v + 1]) = IF OD!CBarAlphabet[v + 1] \in CBarData9 THEN 9 ELSE 10
-  /\ \A n9 \in 0..3 : \A n10 \in 1..3 : SumSeq(OD!CBarRuns([i \in 1..n9 + n10 |-> IF i <= n9 THEN i ELSE 11 + i])) = CBarModules(n9, n10)
-  /\ \A i \in 1..DM!NSizes : DM!SizeIdx(DM!SRows(DM!T7[i]), DM!SCols(DM!T7[i])) = i
-  /\ \A v \in 1..40 : QR!Dim(v) = 17 + (4 * v) /\ QR!DataCodewords(v, 1) > QR!DataCodewords(v, 4)
-  /\ OwnFmtValue("QR") = 11 /\ OwnFmtValue("DM") = 5 /\ OwnFmtValue("CBAR") = 1 /\ OwnFmtValue("UPCE") = 15
-ASSUME NaturalLaws
+(* ------------------------------------------------------------------ laws *)
+Kinds4 == DocumentedKinds \cup {"Reader"}
+DocOutcomes == InnerOutcomes(DocumentedKinds)
+DecOutcomes == InnerOutcomes({"Format", "Checksum"})            \* what the QR decode attempt may return
+TotalDoc(r) == IsTotal(r) /\ (r.err = "" \/ r.err \in DocumentedKinds)
+Seqs(S, n) == UNION {[1..k -> S] : k \in 0..n}
+RegistryLaw == RegisteredECI = AllValues /\ \A v \in RegisteredECI : ByValue(v) >= 1
+CompositionLaws ==
+  /\ \A a, p, b \in DecOutcomes : TotalDoc(QRMirrorRetry(a, p, b))
+  /\ \A a, p, b \in DecOutcomes : ~Ok(a) /\ ~Ok(QRMirrorRetry(a, p, b)) => QRMirrorRetry(a, p, b).err = a.err      \* the original error is reported
+  /\ \E p, b \in DecOutcomes : QRMirrorRetry(Fail("Other"), p, b) = Neither                                         \* why the kinds matter
+  /\ \A q \in Seqs(InnerOutcomes(Kinds4), 3) : TotalDoc(FirstSuccess(q, 1, Kinds4))
+  /\ \A q \in Seqs(DocOutcomes, 3) : TotalDoc(FirstSuccess(q, 1, DocumentedKinds))
+  /\ \A u, r \in DocOutcomes, th \in BOOLEAN : TotalDoc(OneDDecode(u, th, r))
+  /\ \A d1, c1, d2, c2 \in DocOutcomes : TotalDoc(AztecTwoTries(d1, c1, d2, c2))
+  /\ \A m \in DocOutcomes, x \in InnerOutcomes(Kinds4) : TotalDoc(WithExtension(m, x))
+DesignatorLaws ==
+  /\ ECIFormRange(1) = (2^7) - 1 /\ ECIFormRange(2) = (2^14) - 1 /\ ECIFormRange(3) = (2^21) - 1
+  /\ \A v \in {0, 3, 26, 127, 128, 170, 899, 900, 16383, 16384, 999999} :
+        LET form == IF v <= 127 THEN 1 ELSE IF v <= 16383 THEN 2 ELSE 3
+            des == CASE form = 1 -> <<v>> [] form = 2 -> <<128 + (v \div 256), v % 256>>
+                     [] form = 3 -> <<192 + (v \div 65536), (v \div 256) % 256, v % 256>>
+            \* ECI mode, designator, terminator: 0111 dddddddd.. 0000
+            bits == <<0,1,1,1>> \o Cat([i \in 1..Len(des) |-> BitsOf(des[i], 8)]) \o <<0,0,0,0>>
+            bytes == BitsToBytes(bits)
+        IN QRParse(bytes, 1, FALSE).cls = (IF ECISupported(v) THEN "ok" ELSE "format")
+  /\ \A v \in {0, 3, 26, 127, 170, 899, 900, 999999} : ECIExpected(1, v) = (IF v \in AllValues THEN 0 ELSE 1)
+  /\ ECIExpected(6, 899) = 8 /\ ECIExpected(6, 900) = 1 /\ ECIExpected(6, 26) = 0
+Laws == Mode = "laws" => RegistryLaw /\ CompositionLaws /\ DesignatorLaws
 =============================================================================
